@@ -1,18 +1,33 @@
 """C19 — a cache hit is declared only when a fresh run would give the cached results.
 
-Tie B, two streams.
+Tie B, five streams.
 
-(1) Histories through the REAL CLI in a temp project outside /verif and /repo (target -> direct local
-    module -> transitive local module). After every run with `--cache-file` we record: the
+(1) Histories through the REAL CLI in a temp project outside /verif and /repo. The project has the target,
+    two local modules (direct -> transitive), a capitalised local module, two modules in a fake
+    `site-packages` directory and two stdlib-NAMED modules on PYTHONPATH; any of them is edited, the
+    options change (follow level 0..3, excluded imports / names incl. near-collisions: letter case, order,
+    repetition, white space, equivalent regexes, the other field; through short / long flags or
+    pyproject.toml), runs with `--cache-file` and `-r` in between. After every run we record: the
     'cache is up-to-date' info line, the exit status, whether the cache file was rewritten, its bytes.
     Independent oracle: a from-scratch run (`-o cacheable`, no cache file) in the same project state:
     a hit is legal only if that run succeeds and prints exactly the cached document; after a miss the
-    written cache is exactly that document. The Lean state machine (`Cache.step`) is fed the same op
-    sequence with content hashes (and, as its `Analysis` parameters, the from-scratch results digest,
-    the from-scratch exit class, and the recorded-origin list computed by a 20-line import scanner
-    of my own) and must predict hit / miss / fatal and the document on disk after every step.
+    written cache is exactly that document. The Lean state machine (`CacheDeps.stepG` over the modelled
+    dependency computation: import follower of C12 + make_cacheable_import_info + is_in_import_blacklist
+    / is_in_pip + the hashed option tuple) is fed the same op sequence with content hashes, my own scan
+    of every file's imports, `re.fullmatch` / isort verdicts, and — as the only facts taken from the
+    from-scratch run — its results digest and whether it ended fatally for a reason other than the
+    import stage; it must predict hit / miss / fatal and the document on disk (incl. the import list
+    and the arguments key) after every step. The model's follower / recorded list is additionally
+    compared with a second, independent Python reading (`expected_analysis`).
 
-(2) Corruptions of a real cache file through `target_cache_file_is_up_to_date` in-process
+(2) make_arguments_hash in-process on ~1100 option sets vs the Lean `argsKey`: equal hashes iff equal
+    keys; oracle: equal hashes only for equal follow level and equal pattern SETS.
+
+(3) The real import follower + make_cacheable_import_info in-process with an audit hook on open():
+    every source file opened while the follower runs must be the target or a recorded origin; the Lean
+    model must predict exactly the files opened, the keys of import_irs and the recorded origins.
+
+(4) Corruptions of a real cache file through `target_cache_file_is_up_to_date` in-process
     (`impl.outcome_of`): truncation at EVERY byte offset, every node of the document replaced by
     null / numbers / bool / strings / lists / dicts, top-level scalars, arrays, strings naming a
     field, empty file, BOM, invalid UTF-8, values json.loads itself refuses (nesting depth, int size),
@@ -24,6 +39,8 @@ Tie B, two streams.
     `cache-gate-crash:*` class is answered stale; the stream is kept unchanged so that a regression is
     a VIOLATION (those signatures are `fixed`, not `known`, in known_findings.json). What can still
     raise is the conjunction after the try: OSError from hash_file_content on an unreadable regular file.
+
+(5) hash_file_content vs md5 of the whole file around the block-size boundaries.
 """
 from __future__ import annotations
 
@@ -46,7 +63,7 @@ import common
 import impl
 
 PID = "C19"
-TABLES = None
+TABLES = ["C12"]      # the import follower of the dependency theorems is C12's model: its Tie A tables too
 TMPROOT = "/tmp"
 HITLINE = "cache is up-to-date"
 
@@ -95,24 +112,193 @@ TARGET += [(PAD + TARGET[0][0], ["direct"]), (PAD + TARGET[2][0], ["direct"])]
 DIRECT += [(PAD + DIRECT[0][0], ["trans"]), (PAD + DIRECT[1][0], ["trans"])]
 TRANS += [(PAD + TRANS[0][0], []), (PAD + TRANS[1][0], [])]
 
-# hashed = (follow level, excluded imports, excluded names); other = un-hashed options
+# ---- the generalised family: every module class x every follow level ---------------------------
+# Besides the two local modules the project has a capitalised local module (`Helpers`: the case of
+# an exclusion pattern matters), two modules in a fake `site-packages` directory on PYTHONPATH
+# (`is_in_pip`: followed from -f 2) and two modules whose NAMES isort classifies as stdlib but which
+# are absent from this interpreter, so that the files on PYTHONPATH are the ones found
+# (`is_in_stdlib`: followed at -f 3 only; never excludable). Every file is editable.
+HELPERS = [
+    "def make(h):\n    return h.inner\n",
+    "def make(h):\n    return h.inner2\n",
+    "def make(h):\n    return h.inner\n\n\ndef Make(h):\n    return h.cap\n",
+]
+PIPMOD = [
+    "def pfn(p):\n    return p.p1\n",
+    "def pfn(p):\n    return p.p2\n",
+    "from pipdeep import deep\n\n\ndef pfn(p):\n    return deep(p.p1)\n",
+    "from trans import leaf\n\n\ndef pfn(p):\n    return leaf(p.p1)\n",
+    "import pipdeep\n\n\ndef pfn(p):\n    return pipdeep.deep(p)\n",
+]
+PIPDEEP = [
+    "def deep(q):\n    return q.d1\n",
+    "def deep(q):\n    return q.d2\n",
+]
+STDMOD = [
+    "def sfn(s):\n    return s.s1\n",
+    "def sfn(s):\n    return s.s2\n",
+    "from asynchat import ac\n\n\ndef sfn(s):\n    return ac(s.s1)\n",
+]
+STDDEEP = [
+    "def ac(t):\n    return t.t1\n",
+    "def ac(t):\n    return t.t2\n",
+]
+_T_ALL = ("from direct import helper\nfrom pipmod import pfn\nfrom smtpd import sfn\nfrom Helpers import make\n\n\n"
+          "def top(a):\n    a.x = 1\n    return helper(a) + pfn(a.p) + sfn(a.s) + make(a.h)\n\n\n"
+          "def Top(b):\n    return b.cap\n")
+N_OLD_TARGET = len(TARGET)
+TARGET += [
+    (_T_ALL, ["direct", "pipmod", "smtpd", "Helpers"]),                                             # 6
+    ("from pipmod import pfn\n\n\ndef top(a):\n    return pfn(a.only)\n", ["pipmod"]),              # 7
+    ("import pipmod\nimport smtpd\nimport Helpers\n\n\ndef top(a):\n    a.x = 1\n"
+     "    return pipmod.pfn(a.p) + smtpd.sfn(a.s) + Helpers.make(a.h)\n", ["pipmod", "smtpd", "Helpers"]),  # 8
+    ("from direct import helper\nfrom smtpd import sfn\n\n\ndef top(a):\n    return helper(a) + sfn(a)\n\n\n"
+     "def leaf(z):\n    return z.own\n", ["direct", "smtpd"]),                                      # 9
+]
+DIRECT += [
+    ("from trans import leaf\nfrom pipdeep import deep\n\n\ndef helper(b):\n    b.y\n    return leaf(b) + deep(b.d)\n",
+     ["trans", "pipdeep"]),                                                                        # 6: local -> pip
+    ("from nosuch import ghost\n\n\ndef helper(b):\n    return ghost(b.g)\n", ["nosuch"]),          # 7: unresolvable
+    ("from asynchat import ac\n\n\ndef helper(b):\n    return ac(b.via_std)\n",
+     ["asynchat"]),                                                                                # 8: local -> stdlib
+]
+TRANS += [("def leaf(c):\n    return c.z\n\n\ndef Leaf(c):\n    return c.capital\n", [])]            # 5
+
+ROLES = ["target", "direct", "trans", "helpers", "pipmod", "pipdeep", "stdmod", "stddeep"]
+SP_DIR, STD_DIR = "_sp/site-packages", "_std"
+FILES = {"target": ("target.py", TARGET), "direct": ("direct.py", DIRECT), "trans": ("trans.py", TRANS),
+         "helpers": ("Helpers.py", [(x, None) for x in HELPERS]),
+         "pipmod": (SP_DIR + "/pipmod.py", [(x, None) for x in PIPMOD]),
+         "pipdeep": (SP_DIR + "/pipdeep.py", [(x, None) for x in PIPDEEP]),
+         "stdmod": (STD_DIR + "/smtpd.py", [(x, None) for x in STDMOD]),
+         "stddeep": (STD_DIR + "/asynchat.py", [(x, None) for x in STDDEEP])}
+MODNAME = {"direct": "direct", "trans": "trans", "helpers": "Helpers", "pipmod": "pipmod", "pipdeep": "pipdeep",
+           "stdmod": "smtpd", "stddeep": "asynchat"}
+ROLE_OF_MOD = {v: k for k, v in MODNAME.items()}
+CLASS = {"target": "target", "direct": "local", "trans": "local", "helpers": "local", "pipmod": "pip", "pipdeep": "pip",
+         "stdmod": "stdlib", "stddeep": "stdlib"}
+EDIT_OPS = {"editTarget": "target", "editDirect": "direct", "editTransitive": "trans"}
+STATE0 = {r: 0 for r in ROLES}
+
+
+def src_of(role, i):
+    return FILES[role][1][i][0]
+
+
+_SRC_MD5 = {}
+
+
+def src_md5(role, i):
+    if (role, i) not in _SRC_MD5:
+        _SRC_MD5[(role, i)] = md5(src_of(role, i))
+    return _SRC_MD5[(role, i)]
+
+
+# hashed = (follow level, excluded imports, excluded names); other = un-hashed options.
+# `via`: how the hashed options reach rattr — short / long command-line flags, or pyproject.toml.
+def _opt(follow=1, F=(), x=(), other=(), via="short", legacy_args=None):
+    F, x, other = list(F), list(x), list(other)
+    if via == "toml":
+        args = []
+        toml = "[tool.rattr]\nfollow-imports = %d\n" % follow
+        if F:
+            toml += "exclude-imports = [%s]\n" % ", ".join(json.dumps(p) for p in F)
+        if x:
+            toml += "exclude = [%s]\n" % ", ".join(json.dumps(p) for p in x)
+    else:
+        f_, F_, x_ = ("-f", "-F", "-x") if via == "short" else ("--follow-imports", "--exclude-import", "--exclude")
+        args = ([] if (follow == 1 and via == "short") else [f_, str(follow)])
+        for p_ in F:
+            args += [F_, p_]
+        for p_ in x:
+            args += [x_, p_]
+        toml = ""
+    if legacy_args is not None:
+        args = list(legacy_args)
+    return {"args": args + other, "follow": follow, "F": F, "x": x, "other": " ".join(other), "via": via, "toml": toml}
+
+
 OPTIONS = [
-    {"args": [], "follow": 1, "F": [], "x": [], "other": ""},
-    {"args": ["-f", "0"], "follow": 0, "F": [], "x": [], "other": ""},
-    {"args": ["-F", "trans"], "follow": 1, "F": ["trans"], "x": [], "other": ""},
-    {"args": ["-x", "leaf"], "follow": 1, "F": [], "x": ["leaf"], "other": ""},
-    {"args": ["-H"], "follow": 1, "F": [], "x": [], "other": "-H"},
-    {"args": ["--threshold", "1"], "follow": 1, "F": [], "x": [], "other": "--threshold 1"},
-    {"args": ["-F", "direct"], "follow": 1, "F": ["direct"], "x": [], "other": ""},
-    {"args": ["-f", "2"], "follow": 2, "F": [], "x": [], "other": ""},
+    _opt(),
+    _opt(follow=0),
+    _opt(F=["trans"]),
+    _opt(x=["leaf"]),
+    _opt(other=["-H"]),
+    _opt(other=["--threshold", "1"]),
+    _opt(F=["direct"]),
+    _opt(follow=2),
     # exclusion patterns that match the dotted name of an imported MEMBER (trans.leaf, direct.helper)
     # but no module: nothing is excluded, every module is still followed and must be recorded
-    {"args": ["-F", r".*\.leaf"], "follow": 1, "F": [r".*\.leaf"], "x": [], "other": ""},
-    {"args": ["-F", r"direct\.helper"], "follow": 1, "F": [r"direct\.helper"], "x": [], "other": ""},
-    {"args": ["-F", r".*\.[hl]\w+", "-F", r".*\._\w+"], "follow": 1, "F": [r".*\.[hl]\w+", r".*\._\w+"], "x": [], "other": ""},
+    _opt(F=[r".*\.leaf"]),
+    _opt(F=[r"direct\.helper"]),
+    _opt(F=[r".*\.[hl]\w+", r".*\._\w+"]),
 ]
-FILES = {"target": ("target.py", TARGET), "direct": ("direct.py", DIRECT), "trans": ("trans.py", TRANS)}
-EDIT_OPS = {"editTarget": "target", "editDirect": "direct", "editTransitive": "trans"}
+N_OLD_OPTIONS = len(OPTIONS)
+
+# ---- near-collisions of the hashed options: groups of option sets that a sloppy key could conflate.
+# Within a group the from-scratch oracle decides which changes matter (state: target 6, trans 5).
+F_GROUPS = {
+    "case": [["helpers"], ["Helpers"], ["HELPERS"]],
+    "case2": [["Direct"], ["direct"]],
+    "case-pip": [["PIPMOD"], ["pipmod"], ["PipMod"]],
+    "case-class": [[r"\w+"], [r"\W+"]],
+    "case-class2": [[r"[A-Z]\w+"], [r"[a-z]\w+"]],
+    "order-dup": [["trans", "Helpers"], ["Helpers", "trans"], ["trans", "trans", "Helpers"], ["Helpers", "trans", "Helpers"]],
+    "space": [["trans"], [" trans"], ["trans "], ["tr ans"]],
+    "regex-equiv": [["trans"], ["tran[s]"], ["(trans)"], ["trans|trans"]],
+    "split-join": [["trans", "direct"], ["trans|direct"], ["trans, direct"], ["trans', 'direct"], ["transdirect"]],
+    "origin": [[r".*/direct\.py"], [r".*/Direct\.py"], [r".*/site-packages/.*"], [r".*/SITE-PACKAGES/.*"]],
+    "stdlib-name": [["smtpd"], ["SMTPD"], [r".*/smtpd\.py"]],
+    "empty": [[], [""], ["", ""]],
+}
+X_GROUPS = {
+    "case": [["top"], ["Top"], ["TOP"]],
+    "case-followed": [["leaf"], ["Leaf"]],
+    "case-class": [[r"[a-z]+"], [r"[A-Z]+"]],
+    "order-dup": [["leaf", "Top"], ["Top", "leaf"], ["leaf", "leaf", "Top"]],
+    "space": [["leaf"], [" leaf"], ["leaf "]],
+    "regex-equiv": [["leaf"], ["lea[f]"], ["(leaf)"]],
+    "split-join": [["leaf", "top"], ["leaf|top"], ["leaftop"]],
+}
+GROUPS = {}      # (field, group name) -> list of option indices
+
+
+def _add_groups():
+    for field, groups in (("F", F_GROUPS), ("x", X_GROUPS)):
+        for gname, members in groups.items():
+            idx = []
+            for k, pats in enumerate(members):
+                via = ("short", "long", "toml")[k % 3] if gname in ("case", "order-dup") else "short"
+                OPTIONS.append(_opt(**{field: pats}, via=via))
+                idx.append(len(OPTIONS) - 1)
+            GROUPS[(field, gname)] = idx
+    # the same pattern moved between the two fields, and follow levels through every channel
+    OPTIONS.append(_opt(F=["leaf"]))
+    OPTIONS.append(_opt(x=["trans"]))
+    GROUPS[("Fx", "swap")] = [3, len(OPTIONS) - 2, 2, len(OPTIONS) - 1]
+    lv = []
+    for follow in (0, 1, 2, 3):
+        for via in ("short", "long", "toml"):
+            OPTIONS.append(_opt(follow=follow, via=via))
+            lv.append(len(OPTIONS) - 1)
+    GROUPS[("follow", "levels")] = lv
+    # exclusions combined with the higher follow levels
+    for follow in (2, 3):
+        at = {}
+        for pats in (["pipmod"], ["Pipmod"], ["pipdeep"], ["smtpd"], [r".*/site-packages/.*"], ["Helpers"], ["helpers"]):
+            OPTIONS.append(_opt(follow=follow, F=pats))
+            at[pats[0]] = len(OPTIONS) - 1
+        # near-collisions at the levels where the module's class IS followed
+        GROUPS[("F", f"case-pip-follow{follow}")] = [at["pipmod"], at["Pipmod"], at["pipdeep"]]
+        GROUPS[("F", f"case-follow{follow}")] = [at["Helpers"], at["helpers"]]
+        OPTIONS.append(_opt(follow=follow, x=["pfn"]))
+        OPTIONS.append(_opt(follow=follow, x=["deep"]))
+        OPTIONS.append(_opt(follow=follow, other=["--threshold", "1"]))
+
+
+_add_groups()
+LEVEL_OPT = {f: next(i for i, o in enumerate(OPTIONS) if o["follow"] == f and not o["F"] and not o["x"]
+                     and not o["other"] and o["via"] == "short") for f in (0, 1, 2, 3)}
 
 
 def md5(b) -> str:
@@ -120,7 +306,8 @@ def md5(b) -> str:
 
 
 def optkey(o) -> str:
-    return json.dumps([o["follow"], sorted(o["F"]), sorted(o["x"])])
+    """The hashed options as a canonical value [interp: the patterns are a SET]."""
+    return json.dumps([o["follow"], sorted(set(o["F"])), sorted(set(o["x"]))])
 
 
 _STDLIB_ORIGIN = {}
@@ -133,40 +320,131 @@ def stdlib_origin(name):
     return _STDLIB_ORIGIN[name]
 
 
-LOCAL = {"direct": ("direct.py", "direct"), "trans": ("trans.py", "trans")}
+_IS_STDLIB = {}
 
 
-def expected_recorded(state):
-    """My own reading of make_cacheable_import_info for this project family: origins of every import
-    of every analysed module (target + followed local modules), minus excluded imports."""
+def is_stdlib_name(name):
+    """isort's verdict, asked directly (trusted classifier; not through rattr)."""
+    if name not in _IS_STDLIB:
+        from isort import sections
+        from isort.api import place_module
+
+        _IS_STDLIB[name] = place_module(name) == sections.STDLIB
+    return _IS_STDLIB[name]
+
+
+# modules outside the project that variants import: name -> (origin, readable as source)
+EXTERNAL = {"math": (stdlib_origin("math"), False), "sys": ("built-in", False)}
+
+
+def scan_imports(src):
+    """My own reading of the `Import` symbols of a file's root context: [(module named in the
+    statement, module the symbol belongs to | None)] in order of appearance (plain `import M` and
+    `from M import a, b` at module level; no packages in this family, so the module is `M` itself)."""
+    import ast as _ast
+
+    out = []
+    for node in _ast.parse(src).body:
+        if isinstance(node, _ast.Import):
+            for a in node.names:
+                out.append((a.name, a.name if (a.name in ROLE_OF_MOD or a.name in EXTERNAL) else None))
+        elif isinstance(node, _ast.ImportFrom) and node.level == 0:
+            for _ in node.names:
+                out.append((node.module, node.module if (node.module in ROLE_OF_MOD or node.module in EXTERNAL) else None))
+    return out
+
+
+_SCAN = {}
+
+
+def imports_of(role, i):
+    if (role, i) not in _SCAN:
+        _SCAN[(role, i)] = scan_imports(src_of(role, i))
+    return _SCAN[(role, i)]
+
+
+def origin_rel(mod):
+    """Origin of a module name: project-relative for the family's files."""
+    if mod in ROLE_OF_MOD:
+        return FILES[ROLE_OF_MOD[mod]][0]
+    return EXTERNAL[mod][0]
+
+
+def permanent_patterns():
+    from rattr.config._types import Config as _C
+
+    pats = set(getattr(_C, "MODULE_BLACKLIST_PATTERNS", ()) or ())
+    return sorted(pats) or ["packages?\\.rattr", "packages?\\.rattr\\..*", "rattr", "rattr\\..*"]
+
+
+def excluded_mod(o, mod, d=""):
+    """My own reading of is_in_import_blacklist: stdlib names are never excluded; otherwise a user or
+    permanent pattern fully matches the module's origin or its name."""
+    if not mod:
+        return True
+    if is_stdlib_name(mod):
+        return False
+    texts = [mod]
+    if mod in ROLE_OF_MOD or mod in EXTERNAL:
+        org = origin_rel(mod)
+        texts.append(org if os.path.isabs(org) or org == "built-in" else (d + "/" + org if d else "/proj/" + org))
+    return any(re.fullmatch(p, t) for p in list(o["F"]) + permanent_patterns() for t in texts)
+
+
+def expected_analysis(state, d=""):
+    """My own reading of parse_and_analyse_imports + make_cacheable_import_info for this family:
+    (analysed module names in order, recorded origins) or None when the import stage does not complete."""
     o = OPTIONS[state["opt"]]
-    imports_of = {"target": TARGET[state["target"]][1], "direct": DIRECT[state["direct"]][1],
-                  "trans": TRANS[state["trans"]][1]}
+    follow = o["follow"]
 
-    def excluded(m):
-        return any(re.fullmatch(p, m) for p in o["F"])
+    def cls(mod):
+        if mod in ROLE_OF_MOD:
+            return CLASS[ROLE_OF_MOD[mod]]
+        return "stdlib" if is_stdlib_name(mod) else "local"
 
-    analysed, queue, rec = ["target"], ["target"], set()
+    contexts = [imports_of("target", state["target"])]
+    for stmt, tgt in contexts[0]:
+        if tgt is None and not excluded_mod(o, stmt, d):
+            return None                      # fatal: unable to find module
+    analysed, seen = [], set()
+    queue = list(contexts[0]) if follow >= 1 else []
     while queue:
-        cur = queue.pop(0)
-        for m in imports_of[cur]:
-            if excluded(m):
+        stmt, mod = queue.pop(0)
+        if mod is None:
+            continue
+        org = origin_rel(mod)
+        if org in seen or excluded_mod(o, mod, d):
+            continue
+        if cls(mod) == "pip" and follow < 2:
+            continue
+        if cls(mod) == "stdlib" and follow < 3:
+            continue
+        if mod not in ROLE_OF_MOD:
+            return None                      # crash: not a source file
+        role = ROLE_OF_MOD[mod]
+        syms = imports_of(role, state[role])
+        for s2, t2 in syms:
+            if t2 is None and not excluded_mod(o, s2, d):
+                return None
+        analysed.append(mod)
+        seen.add(org)
+        contexts.append(syms)
+        queue += syms
+    rec = set()
+    for c in contexts:
+        for stmt, mod in c:
+            if mod is None or excluded_mod(o, mod, d):
                 continue
-            if m in LOCAL:
-                rec.add(LOCAL[m][0])
-                if o["follow"] >= 1 and m not in analysed:
-                    analysed.append(m)
-                    queue.append(m)
-            else:
-                org = stdlib_origin(m)
-                if org and org != "built-in":
-                    rec.add(org)
-    return sorted(rec)
+            org = origin_rel(mod)
+            if org and org != "built-in":
+                rec.add(org)
+    return analysed, sorted(rec)
 
 
 # ------------------------------------------------------------------ history generation
 
 def random_history(rng, maxlen):
+    """Legacy family (target / direct / trans, the first options): kept as it was."""
     n = rng.randint(2, maxlen)
     ops = []
     for _ in range(n):
@@ -176,14 +454,108 @@ def random_history(rng, maxlen):
         elif r < 0.42:
             ops.append(["forceRefresh"])
         elif r < 0.56:
-            ops.append(["editTarget", rng.randrange(len(TARGET))])
+            ops.append(["editTarget", rng.randrange(N_OLD_TARGET)])
         elif r < 0.70:
-            ops.append(["editDirect", rng.randrange(len(DIRECT))])
+            ops.append(["editDirect", rng.randrange(6)])
         elif r < 0.84:
-            ops.append(["editTransitive", rng.randrange(len(TRANS))])
+            ops.append(["editTransitive", rng.randrange(5)])
         else:
-            ops.append(["changeOption", rng.randrange(len(OPTIONS))])
+            ops.append(["changeOption", rng.randrange(N_OLD_OPTIONS)])
     return close(ops)
+
+
+SMALL = {"target": [0, 2, 6, 7, 8, 9], "direct": [0, 1, 2, 3, 6, 7, 8], "trans": [0, 1, 2, 5]}
+
+
+def random_history2(rng, maxlen):
+    """Generalised family: any file of any class is edited, any option set of OPTIONS (follow 0..3,
+    the near-collision groups, every delivery channel) is switched to, in random order."""
+    n = rng.randint(3, maxlen)
+    ops = [["edit", "target", rng.choice([6, 6, 8, 9])], ["changeOption", rng.randrange(len(OPTIONS))]]
+    for _ in range(n):
+        r = rng.random()
+        if r < 0.36:
+            ops.append(["runWithCache"])
+        elif r < 0.40:
+            ops.append(["forceRefresh"])
+        elif r < 0.75:
+            role = rng.choice(ROLES)
+            ops.append(["edit", role, rng.choice(SMALL.get(role) or list(range(len(FILES[role][1]))))])
+        elif r < 0.87:
+            ops.append(["changeOption", rng.randrange(len(OPTIONS))])
+        else:
+            # a near-collision: another member of a group the current... any group
+            g = rng.choice(sorted(GROUPS))
+            ops.append(["changeOption", rng.choice(GROUPS[g])])
+            ops.append(["runWithCache"])
+            ops.append(["changeOption", rng.choice(GROUPS[g])])
+    return close(ops)
+
+
+def class_level_histories():
+    """follow level 0..3 x module class (local / pip / stdlib-named, imported directly or
+    transitively, by `from` and by `import`) x 'edit the module between two runs sharing a cache'."""
+    out = []
+    for tgt in (6, 8):
+        for lvl in (0, 1, 2, 3):
+            if tgt == 8 and lvl < 2:
+                continue                     # the `import M` form: the levels that follow pip / stdlib
+            h = [["edit", "target", tgt], ["edit", "pipmod", 2], ["edit", "stdmod", 2],
+                 ["changeOption", LEVEL_OPT[lvl]], ["runWithCache"], ["runWithCache"]]
+            for role, v in (("pipmod", 4), ("stdmod", 1), ("helpers", 1), ("pipdeep", 1), ("stddeep", 1),
+                            ("direct", 1), ("trans", 1), ("pipmod", 2), ("stdmod", 2)):
+                h += [["edit", role, v], ["runWithCache"]]
+            out.append(h)
+    # the dependency reaches another class: local -> pip, local -> stdlib, pip -> local
+    for lvl in (1, 2, 3):
+        out.append([["edit", "target", 9], ["edit", "direct", 6], ["changeOption", LEVEL_OPT[lvl]], ["runWithCache"],
+                    ["edit", "pipdeep", 1], ["runWithCache"], ["edit", "direct", 8], ["runWithCache"],
+                    ["edit", "stddeep", 1], ["runWithCache"], ["edit", "target", 7], ["edit", "pipmod", 3],
+                    ["runWithCache"], ["edit", "trans", 1], ["runWithCache"], ["edit", "trans", 0], ["runWithCache"]])
+    # level changes between runs, every delivery channel, with an edit of a module whose class the
+    # new level starts / stops following
+    lv = GROUPS[("follow", "levels")]
+    seq = [lv[3 * 2 + 0], lv[3 * 1 + 1], lv[3 * 2 + 2], lv[3 * 3 + 1], lv[3 * 2 + 1], lv[3 * 0 + 2], lv[3 * 3 + 2],
+           lv[3 * 3 + 0]]
+    h = [["edit", "target", 6]]
+    for k, oi in enumerate(seq):
+        h += [["changeOption", oi], ["runWithCache"], ["edit", ("pipmod", "stdmod", "helpers")[k % 3], k % 2],
+              ["runWithCache"]]
+    out.append(h)
+    # excluded modules of each class at the levels that would follow them
+    for oi, o in enumerate(OPTIONS):
+        if o["follow"] in (2, 3) and (o["F"] or o["x"]) and o["via"] == "short":
+            h = [["edit", "target", 6], ["edit", "pipmod", 2], ["changeOption", oi], ["runWithCache"],
+                 ["edit", "pipmod", 4], ["runWithCache"], ["edit", "pipdeep", 1], ["runWithCache"],
+                 ["edit", "stdmod", 1], ["runWithCache"]]
+            if any("elpers" in p_ for p_ in o["F"]):
+                h += [["edit", "helpers", 1], ["runWithCache"]]
+            out.append(h)
+    # an unresolvable import: fatal unless excluded; the exclusion is part of the key
+    out.append([["edit", "direct", 7], ["runWithCache"], ["changeOption", 1], ["runWithCache"], ["changeOption", 0],
+                ["runWithCache"], ["edit", "direct", 0], ["runWithCache"], ["runWithCache"]])
+    return out
+
+
+def option_pair_histories():
+    """Two runs sharing a cache whose hashed options differ only by a near-collision (letter case,
+    order, repetition, white space, an equivalent regex, the same text in the other field), in both
+    directions, in a state where the difference can matter for a module / function name."""
+    out = []
+    base = [["edit", "target", 6], ["edit", "trans", 5], ["edit", "helpers", 2], ["edit", "pipmod", 2]]
+    for key in sorted(GROUPS):
+        idx = GROUPS[key]
+        if key == ("follow", "levels"):
+            continue
+        # a tour through the group and back: every adjacent pair in both directions
+        tour = idx + idx[::-1][1:]
+        if len(idx) > 2:
+            tour += [idx[0], idx[2], idx[0]]
+        h = list(base)
+        for oi in tour:
+            h += [["changeOption", oi], ["runWithCache"]]
+        out.append(h)
+    return out
 
 
 def close(ops):
@@ -255,6 +627,12 @@ def exhaustive_histories(maxlen):
 def cli(args, cwd, timeout=120):
     env = dict(os.environ)
     env["PYTHONHASHSEED"] = "0"
+    # the fake site-packages / stdlib directories of the project (if it has them) go on the search
+    # path AFTER whatever PYTHONPATH selects the rattr under test
+    extra = [str(Path(cwd) / SP_DIR), str(Path(cwd) / STD_DIR)]
+    extra = [e for e in extra if os.path.isdir(e)]
+    if extra:
+        env["PYTHONPATH"] = os.pathsep.join(([env["PYTHONPATH"]] if env.get("PYTHONPATH") else []) + extra)
     p = subprocess.run([sys.executable, "-m", "rattr", *args], cwd=cwd, env=env, capture_output=True,
                        timeout=timeout)
     err = p.stderr.decode("utf-8", "replace")
@@ -294,38 +672,101 @@ def make_project(prefix="c19_"):
     return d
 
 
+def write_role(d, role, i):
+    f = d / FILES[role][0]
+    f.parent.mkdir(parents=True, exist_ok=True)
+    f.write_text(src_of(role, i))
+
+
+def pattern_change_kind(a, b):
+    """Syntactic class of the difference between two pattern lists."""
+    if list(a) == list(b):
+        return None
+    if set(a) == set(b):
+        return "order-or-repetition"
+    if sorted(set(x.lower() for x in a)) == sorted(set(x.lower() for x in b)):
+        return "case"
+    if sorted(set("".join(x.split()) for x in a)) == sorted(set("".join(x.split()) for x in b)):
+        return "white-space"
+    return "patterns"
+
+
+def changes_since(written, state):
+    """What differs syntactically between the state the cache on disk was written in and now."""
+    if written is None:
+        return ["no-cache-written"]
+    # only files that are dependencies by my own reading of the follower, then or now (an edit of a
+    # file nobody reads is not a change)
+    deps = {"target"}
+    for st in (written, state):
+        exp = expected_analysis(st)
+        deps |= set(ROLES) if exp is None else {ROLE_OF_MOD[m] for m in exp[0]}
+    out = [f"edit:{r}" for r in ROLES if written[r] != state[r] and r in deps]
+    a, b = OPTIONS[written["opt"]], OPTIONS[state["opt"]]
+    if a["follow"] != b["follow"]:
+        out.append(f"opt:follow:{a['follow']}->{b['follow']}")
+    for fld in ("F", "x"):
+        k = pattern_change_kind(a[fld], b[fld])
+        if k:
+            out.append(f"opt:{fld}:{k}")
+    if a["other"] != b["other"]:
+        out.append("opt:unhashed")
+    return out
+
+
+def normalise(op):
+    """Legacy op names -> the general form."""
+    if op[0] in EDIT_OPS:
+        return ["edit", EDIT_OPS[op[0]], op[1]]
+    return list(op)
+
+
 def run_history(ops, init_disk=None):
     """Execute one history against the real CLI. Returns one record per op."""
     d = make_project("c19h_")
     try:
-        state = {"target": 0, "direct": 0, "trans": 0, "opt": 0}
-        for k, (fn, variants) in FILES.items():
-            (d / fn).write_text(variants[0][0])
+        state = dict(STATE0, opt=0)
+        for role in ROLES:
+            write_role(d, role, 0)
         cache = d / "cache.json"
         if init_disk is not None:
             cache.write_bytes(init_disk)
         recs = []
-        for op in ops:
+        written = None
+        # the from-scratch reference run is repeated for every run of a legacy history (which also
+        # checks that it is deterministic) and made once per distinct state in the generalised family
+        legacy = all(o[0] != "edit" and (o[0] != "changeOption" or o[1] < N_OLD_OPTIONS) for o in ops)
+        fresh_memo = {}
+        for op0 in ops:
+            op = normalise(op0)
             name = op[0]
-            if name in EDIT_OPS:
-                k = EDIT_OPS[name]
-                state[k] = op[1]
-                fn, variants = FILES[k]
-                (d / fn).write_text(variants[op[1]][0])
-                recs.append({"op": op})
+            if name == "edit":
+                state[op[1]] = op[2]
+                write_role(d, op[1], op[2])
+                recs.append({"op": op0})
             elif name == "changeOption":
                 state["opt"] = op[1]
-                recs.append({"op": op})
+                (d / "pyproject.toml").write_text(OPTIONS[op[1]]["toml"])
+                recs.append({"op": op0})
             else:
                 o = OPTIONS[state["opt"]]
                 base = ["-w", "all", *o["args"]]
-                fresh = cli([*base, "-o", "cacheable", "target.py"], d)
+                fkey = json.dumps(state, sort_keys=True)
+                if legacy or fkey not in fresh_memo:
+                    fresh_memo[fkey] = cli([*base, "-o", "cacheable", "target.py"], d)
+                fresh = fresh_memo[fkey]
                 before, st_before = read_or_none(cache), stat_of(cache)
                 extra = ["-r"] if name == "forceRefresh" else []
                 r = cli([*base, *extra, "--cache-file", "cache.json", "-o", "silent", "target.py"], d)
                 after, st_after = read_or_none(cache), stat_of(cache)
-                recs.append({"op": op, "state": dict(state), "fresh": fresh, "run": r, "before": before,
-                             "after": after, "rewritten": st_before != st_after, "dir": str(d)})
+                rec = {"op": op0, "state": dict(state), "fresh": fresh, "run": r, "before": before,
+                       "after": after, "rewritten": st_before != st_after, "dir": str(d),
+                       "since_write": changes_since(written, state)}
+                if st_before != st_after and after is not None:
+                    written = dict(state)
+                elif after is None:
+                    written = None
+                recs.append(rec)
         return recs
     finally:
         shutil.rmtree(d, ignore_errors=True)
@@ -363,10 +804,15 @@ def judge_run(rec):
             out.append(("other:hit-with-nonzero-exit", str(r["exit"])))
         if rec["rewritten"] or rec["after"] != rec["before"]:
             out.append(("other:hit-but-cache-file-modified", ""))
+        # WHAT changed since the cache on disk was written (syntactic; a hit with nothing changed but
+        # an un-hashed option is the known strictness finding, anything else is a different bug)
+        since = rec.get("since_write") or []
+        ctx = "" if set(since) <= {"opt:unhashed"} else \
+            ";changed=" + ",".join(since) + ";follow=" + str(OPTIONS[rec["state"]["opt"]]["follow"])
         if not fresh_ok:
-            out.append(("hit-but-fresh-run-fatal", f["err_tail"]))
+            out.append(("hit-but-fresh-run-fatal" + ctx, f["err_tail"]))
         elif fdoc != rec["before"]:
-            out.append(("hit-but-fresh-run-differs:" + diff_fields(fdoc, rec["before"] or "null"), ""))
+            out.append(("hit-but-fresh-run-differs:" + diff_fields(fdoc, rec["before"] or "null") + ctx, ""))
     else:
         if r["exit"] == 0:
             if not fresh_ok:
@@ -402,26 +848,88 @@ def results_digest(doc):
     return common.digest(doc.get("results"))
 
 
+_FACTS = {}
+
+
+def live_facts():
+    """Constants of the running rattr the model is parameterised by."""
+    if not _FACTS:
+        from rattr.config._types import Config as _C
+        from rattr.models.symbol._util import PYTHON_BUILTINS_LOCATION
+
+        _FACTS.update(litPrefix=getattr(_C, "LITERAL_VALUE_PREFIX", "@"), builtins=PYTHON_BUILTINS_LOCATION,
+                      permanent=permanent_patterns())
+    return _FACTS
+
+
+def all_patterns():
+    pats = set(live_facts()["permanent"])
+    for o in OPTIONS:
+        pats.update(o["F"])
+    return sorted(pats)
+
+
+_RX = {}
+
+
+def fullmatch(p, t):
+    if p not in _RX:
+        _RX[p] = re.compile(p)
+    return _RX[p].fullmatch(t) is not None
+
+
+def static_payload(d):
+    """The `Static` record of the Lean model for the project at `d`: the module table of my own layout,
+    isort's verdicts, `re.fullmatch` verdicts (patterns x names / origins; origins are matched by their
+    real absolute path and keyed by the project-relative one), my scan of every variant's imports."""
+    facts = live_facts()
+    names = list(ROLE_OF_MOD) + list(EXTERNAL) + ["nosuch"]
+    mods = [{"name": m, "origin": FILES[r][0], "readable": True} for m, r in ROLE_OF_MOD.items()]
+    mods += [{"name": m, "origin": org, "readable": rd} for m, (org, rd) in EXTERNAL.items() if org]
+    texts = [(n, n) for n in names]
+    for m in mods:
+        o = m["origin"]
+        texts.append((o, o if (os.path.isabs(o) or o == "built-in") else d + "/" + o))
+    matches = [[p_, key] for p_ in all_patterns() for key, real in texts if fullmatch(p_, real)]
+    rows, total = [], 0
+    for role in ROLES:
+        for i in range(len(FILES[role][1])):
+            syms = [[a_, b_] for a_, b_ in imports_of(role, i)]
+            total += len(syms)
+            rows.append({"origin": FILES[role][0], "content": src_md5(role, i), "syms": syms})
+    return {"mods": mods, "stdlib": [n for n in names if is_stdlib_name(n)], "matches": matches,
+            "permanent": facts["permanent"], "builtins": facts["builtins"], "imports": rows, "fuel": total + 1,
+            "litPrefix": facts["litPrefix"]}
+
+
+def raw_opts(o):
+    return {"follow": o["follow"], "F": list(o["F"]), "x": list(o["x"])}
+
+
+def model_key(st):
+    o = OPTIONS[st["opt"]]
+    return [src_md5(r, st[r]) for r in ROLES] + [optkey(o), o["other"]]
+
+
 def history_payload(ops, recs, version):
-    files = [["target.py", md5(TARGET[0][0])], ["direct.py", md5(DIRECT[0][0])], ["trans.py", md5(TRANS[0][0])]]
-    for m in ("math",):
-        org = stdlib_origin(m)
+    d = next((r["dir"] for r in recs if "dir" in r), "/nonexistent")
+    files = [[FILES[r][0], src_md5(r, 0)] for r in ROLES]
+    for m, (org, _) in EXTERNAL.items():
         if org and os.path.isfile(org):
             files.append([org, md5(Path(org).read_bytes())])
     mops, rows, seen = [], [], {}
-    for op, rec in zip(ops, recs):
+    for op0, rec in zip(ops, recs):
+        op = normalise(op0)
         name = op[0]
-        if name in EDIT_OPS:
-            mops.append({"op": name, "c": md5(FILES[EDIT_OPS[name]][1][op[1]][0])})
+        if name == "edit":
+            mops.append({"op": "edit", "p": FILES[op[1]][0], "c": src_md5(op[1], op[2])})
         elif name == "changeOption":
             o = OPTIONS[op[1]]
-            mops.append({"op": name, "o": optkey(o), "x": o["other"]})
+            mops.append({"op": "setOptions", "o": raw_opts(o), "x": o["other"]})
         else:
             mops.append({"op": name})
             st = rec["state"]
-            o = OPTIONS[st["opt"]]
-            key = [md5(TARGET[st["target"]][0]), md5(DIRECT[st["direct"]][0]), md5(TRANS[st["trans"]][0]),
-                   optkey(o), o["other"]]
+            key = model_key(st)
             f = rec["fresh"]
             fails = f["exit"] != 0
             fresh = "<fatal>"
@@ -430,7 +938,11 @@ def history_payload(ops, recs, version):
                     fresh = results_digest(json.loads(f["out"]))
                 except Exception:
                     fresh = "<unparseable>"
-            row = {"key": key, "recorded": expected_recorded(st), "fails": fails, "fresh": fresh}
+            # `fails` of the table = fatal for a reason OTHER than the import stage (which the model
+            # decides itself): badness over the threshold
+            exp = expected_analysis(st, d)
+            row = {"key": key, "contents": key[:len(ROLES)], "opts": raw_opts(OPTIONS[st["opt"]]),
+                   "other": OPTIONS[st["opt"]]["other"], "fails": fails and exp is not None, "fresh": fresh}
             k = json.dumps(key)
             if k in seen:
                 if seen[k] != row:
@@ -438,10 +950,14 @@ def history_payload(ops, recs, version):
             else:
                 seen[k] = row
                 rows.append(row)
-    return {"init": {"target": "target.py", "direct": "direct.py", "transitive": "trans.py", "files": files,
-                     "emptyHash": md5(b""), "opts": optkey(OPTIONS[0]), "other": "", "version": "V",
-                     "plugins": "P"},
-            "disk": "absent", "analysis": rows, "ops": mops}
+    return {"static": static_payload(d),
+            "init": {"target": "target.py", "files": files, "emptyHash": md5(b""), "opts": raw_opts(OPTIONS[0]),
+                     "other": "", "version": "V", "plugins": "P"},
+            "disk": "absent", "analysis": rows, "keyPaths": [FILES[r][0] for r in ROLES], "ops": mops}
+
+
+def model_optkey(k):
+    return json.dumps([k["follow"], k["F"], k["x"]]) if isinstance(k, dict) else k
 
 
 def real_disk_projection(text, d, version, argmap, plugins_seen):
@@ -795,6 +1311,257 @@ def corruption_stream(res, tier, rng, model):
         shutil.rmtree(d, ignore_errors=True)
 
 
+# ------------------------------------------------------------------ dependencies, in-process
+
+_OPENED = {"on": False, "paths": []}
+_HOOKED = []
+
+
+def _audit(event, args):
+    if _OPENED["on"] and event == "open" and args and isinstance(args[0], str):
+        mode = args[1] if len(args) > 1 else None
+        if mode is not None and "b" in str(mode):
+            return
+        # Python's own import system also opens sources (rattr's locator asks importlib for stdlib
+        # names, which imports the parent module): those are not reads of the analysis
+        try:
+            if sys._getframe(1).f_code.co_filename.startswith("<frozen importlib"):
+                return
+        except Exception:
+            pass
+        _OPENED["paths"].append(args[0])
+
+
+def deps_cases(tier, rng):
+    """(state, option index): every follow level x exclusion sets that hit / miss each module class x
+    project states in which modules of every class are imported directly and transitively."""
+    shapes = [
+        {"target": 6, "pipmod": 2, "stdmod": 2},
+        {"target": 8, "pipmod": 4, "stdmod": 2},
+        {"target": 9, "direct": 6},
+        {"target": 9, "direct": 8, "stddeep": 1},
+        {"target": 7, "pipmod": 3},
+        {"target": 6, "pipmod": 0, "stdmod": 0, "direct": 2},
+        {"target": 0, "direct": 6},
+    ]
+    opts = [i for i, o in enumerate(OPTIONS) if o["via"] == "short" and not o["other"] and not o["x"]
+            and (i in LEVEL_OPT.values() or (o["follow"] in (2, 3) and o["F"]))]
+    # the case / origin / stdlib-name groups at level 1 too
+    for key in (("F", "case"), ("F", "case-pip"), ("F", "origin"), ("F", "stdlib-name")):
+        opts += [i for i in GROUPS[key] if i not in opts]
+    cases = [(dict(STATE0, **sh), oi) for sh in shapes for oi in opts]
+    if tier == "quick":
+        keep = [c for c in cases if c[1] in LEVEL_OPT.values()]
+        rest = [c for c in cases if c[1] not in LEVEL_OPT.values()]
+        rng.shuffle(rest)
+        cases = keep + rest[:90]
+    return cases
+
+
+def deps_in_process(d, cases):
+    """The real import follower + make_cacheable_import_info on every case; which source files were
+    opened for reading while the follower ran is observed from outside (audit hook)."""
+    import importlib as _il
+
+    from rattr.analyser import file as F
+    from rattr.models.results import util as ru
+
+    if not _HOOKED:
+        sys.addaudithook(_audit)
+        _HOOKED.append(True)
+    outs = []
+    saved_path = list(sys.path)
+    on_disk = {}
+    try:
+        with impl.in_dir(str(d)):
+            sys.path[1:1] = [str(d / SP_DIR), str(d / STD_DIR)]
+            for state, oi in cases:
+                for role in ROLES:
+                    if on_disk.get(role) != state[role]:
+                        write_role(d, role, state[role])
+                        on_disk[role] = state[role]
+                o = OPTIONS[oi]
+                for m in list(ROLE_OF_MOD) + ["target"]:
+                    sys.modules.pop(m, None)
+                _il.invalidate_caches()
+                impl.reset_config(_follow_imports_level=o["follow"], _excluded_imports=list(o["F"]),
+                                  _excluded_names=list(o["x"]), target=Path("target.py"))
+                _OPENED["paths"] = []
+                with impl.Tap():
+                    _OPENED["on"] = True
+                    try:
+                        r = impl.outcome_of(F.parse_and_analyse_file)
+                    finally:
+                        _OPENED["on"] = False
+                    opened = sorted({norm_path(os.path.abspath(p_), str(d)) for p_ in _OPENED["paths"]
+                                     if p_.endswith(".py") and os.path.abspath(p_).startswith(str(d) + "/")})
+                    ob = {"outcome": r[0] if r[0] != "crash" else "crash:" + str(r[1]), "opened": opened}
+                    if r[0] == "ok":
+                        file_ir, import_irs, _ = r[1]
+                        ob["irs"] = list(import_irs.keys())
+                        ri = impl.outcome_of(ru.make_cacheable_import_info, file_ir, import_irs)
+                        if ri[0] == "ok":
+                            ob["recorded"] = sorted(norm_path(str(i.filepath), str(d)) for i in ri[1])
+                        else:
+                            ob["outcome"] = "import-info-" + ":".join(map(str, ri[:2]))
+                outs.append(ob)
+    finally:
+        sys.path[:] = saved_path
+        for m in list(ROLE_OF_MOD) + ["target"]:
+            sys.modules.pop(m, None)
+    return outs
+
+
+def deps_stream(res, tier, rng, model):
+    """`Frame.covers`, observed directly: every source file the follower opens is the target or a
+    recorded origin; and the Lean model predicts exactly the files opened, the keys of `import_irs`
+    and the recorded origins."""
+    cases = deps_cases(tier, rng)
+    d = make_project("c19d_")
+    try:
+        outs = deps_in_process(d, cases)
+        payloads = []
+        for state, oi in cases:
+            ops = [["edit", r, state[r]] for r in ROLES if state[r] != 0] + [["changeOption", oi], ["runWithCache"]]
+            recs = [{"op": o_} for o_ in ops[:-1]] + [{"op": ops[-1], "state": dict(state, opt=oi), "dir": str(d),
+                                                      "fresh": {"exit": 0, "out": "{}", "tb": False}}]
+            payloads.append(history_payload(ops, recs, "?"))
+        mouts = model.batch([("cache_deps_history", p_) for p_ in payloads])
+        for (state, oi), ob, mo in zip(cases, outs, mouts):
+            o = OPTIONS[oi]
+            res.evaluations += 1
+            case = {"stream": "deps", "state": state, "opt": oi, "options": raw_opts(o)}
+            res.nontrivial.add(common.digest(["deps", state, oi]))
+            res.count(f"deps:follow={o['follow']}:{'excl' if o['F'] else 'no-excl'}")
+            res.count("deps:" + ob["outcome"].split(":")[0])
+            if "__error__" in mo:
+                res.disagreements.append({"case": case, "model": mo})
+                continue
+            ms = mo["steps"][-1]
+            if ob["outcome"] != "ok":
+                res.count("deps:not-completed")
+                if ms.get("bfs") == "done":
+                    res.disagreements.append({"case": case, "impl": ob, "model": {"bfs": ms.get("bfs")}})
+                continue
+            # oracle: read => target or recorded
+            for f_ in ob["opened"]:
+                if f_ != "target.py" and f_ not in ob["recorded"]:
+                    role = next((r for r in ROLES if FILES[r][0] == f_), "?")
+                    res.violations.append({"signature": f"module-read-but-not-recorded:{CLASS.get(role, '?')};follow={o['follow']}",
+                                           "case": {**case, "file": f_}, "impl": ob})
+            for f_ in ob["opened"]:
+                res.count("deps:read:" + CLASS.get(next((r for r in ROLES if FILES[r][0] == f_), "?"), "?"))
+            mine = {"opened": sorted(ms["readSet"]), "recorded": sorted(ms["recorded"]), "irs": ms["analysed"]}
+            theirs = {"opened": ob["opened"], "recorded": ob["recorded"], "irs": ob["irs"]}
+            if ms.get("bfs") != "done" or mine != theirs:
+                res.disagreements.append({"case": case, "impl": theirs, "model": {**mine, "bfs": ms.get("bfs")}})
+    finally:
+        shutil.rmtree(d, ignore_errors=True)
+
+
+# ------------------------------------------------------------------ arguments hash, in-process
+
+def argkey_family(tier, rng):
+    """Option sets for make_arguments_hash: every follow level x pattern lists of the near-collision
+    groups (as excluded imports, as excluded names, and combined), plus None for 'option not given'."""
+    Fs, xs = [None, []], [None, []]
+    for members in F_GROUPS.values():
+        Fs += [m for m in members if m not in Fs]
+    for members in X_GROUPS.values():
+        xs += [m for m in members if m not in xs]
+    # each pattern list also in the other field
+    Fs += [m for m in xs if m not in Fs]
+    xs += [m for m in Fs if m not in xs]
+    fam = [(f, F, None) for f in (0, 1, 2, 3) for F in Fs] + [(f, None, x) for f in (0, 1, 2, 3) for x in xs]
+    combos = [(f, F, x) for f in (1, 2) for F in Fs[1:] for x in xs[1:]]
+    rng.shuffle(combos)
+    fam += combos[:600 if tier == "quick" else 6000]
+    fam += [(o["follow"], list(o["F"]), list(o["x"])) for o in OPTIONS]
+    seen, out = set(), []
+    for c in fam:
+        k = json.dumps(c)
+        if k not in seen:
+            seen.add(k)
+            out.append(c)
+    return out
+
+
+def real_argument_hashes(fam):
+    from rattr.models.results import util as ru
+
+    outs = []
+    for f, F, x in fam:
+        impl.reset_config(_follow_imports_level=f, _excluded_imports=F, _excluded_names=x)
+        o = impl.outcome_of(ru.make_arguments_hash)
+        outs.append(o[1] if o[0] == "ok" else "<" + ":".join(map(str, o[:2])) + ">")
+    return outs
+
+
+def canon_opts(c):
+    f, F, x = c
+    return json.dumps([f, sorted(set(F or [])), sorted(set(x or []))])
+
+
+def option_difference(c1, c2):
+    out = []
+    if c1[0] != c2[0]:
+        out.append("follow")
+    for name, a_, b_ in (("F", c1[1] or [], c2[1] or []), ("x", c1[2] or [], c2[2] or [])):
+        k = pattern_change_kind(sorted(set(a_)), sorted(set(b_)))
+        if k:
+            out.append(f"{name}:{k}")
+    if not out:
+        return "nothing"
+    # the same text moved to the other field
+    if sorted(set(c1[1] or [])) == sorted(set(c2[2] or [])) and sorted(set(c1[2] or [])) == sorted(set(c2[1] or [])):
+        return "fields-swapped"
+    return "+".join(out)
+
+
+def argkey_stream(res, tier, rng, model):
+    """make_arguments_hash in-process on a family of option sets vs the Lean `argsKey`: two option sets
+    get the same hash iff they get the same key; oracle: the same hash only if follow level and both
+    pattern SETS are the same."""
+    fam = argkey_family(tier, rng)
+    hashes = real_argument_hashes(fam)
+    pre = live_facts()["litPrefix"]
+    mouts = model.batch([("cache_argkey", {"prefix": pre, "opts": {"follow": f, "F": F or [], "x": x or []}})
+                         for f, F, x in fam])
+    by_hash, by_key = {}, {}
+    for c, h, mo in zip(fam, hashes, mouts):
+        res.evaluations += 1
+        res.count("argkey:option-set")
+        res.nontrivial.add(common.digest(["argkey", c]))
+        case = {"stream": "argkey", "opts": c}
+        if h.startswith("<"):
+            res.violations.append({"signature": "other:make-arguments-hash-raises", "case": case, "impl": h})
+            continue
+        if "__error__" in mo:
+            res.disagreements.append({"case": case, "model": mo})
+            continue
+        mk = model_optkey(mo)
+        if mk != canon_opts(c) or mo.get("prefix") != pre:
+            res.internal_errors.append({"what": "Lean argsKey differs from sorted(set(.)) computed in Python", "case": case,
+                                        "lean": mo})
+        by_hash.setdefault(h, []).append(c)
+        by_key.setdefault(mk, []).append((c, h))
+    for h, cs in by_hash.items():
+        keys = sorted({canon_opts(c) for c in cs})
+        if len(keys) > 1:
+            c1 = cs[0]
+            c2 = next(c for c in cs if canon_opts(c) != canon_opts(c1))
+            diff = option_difference(c1, c2)
+            res.count("argkey:collision:" + diff)
+            case = {"stream": "argkey", "opts": c1, "opts2": c2, "colliding_option_sets": len(cs)}
+            res.violations.append({"signature": "arguments-hash-collision:" + diff, "case": case, "impl": h})
+            res.disagreements.append({"case": case, "impl": "same hash", "model": "different keys"})
+    for k, chs in by_key.items():
+        hs = sorted({h for _, h in chs})
+        if len(hs) > 1:
+            res.disagreements.append({"case": {"stream": "argkey", "opts": chs[0][0], "opts2": chs[-1][0]},
+                                      "impl": "different hashes", "model": "same key " + k})
+
+
 # ------------------------------------------------------------------ hash probe
 
 def hash_probe_cases():
@@ -837,24 +1604,78 @@ def hash_probe(res):
 
 # ------------------------------------------------------------------ run
 
+def broken_theorems(build):
+    """Names of the C19 theorems a failed proof build points at (error line -> enclosing theorem)."""
+    names = set()
+    try:
+        lines = (common.LEAN / "RattrProofs" / "Props" / "C19.lean").read_text().splitlines()
+    except Exception:
+        return names
+    for b_ in getattr(build, "broken", []) or []:
+        for m in re.finditer(r"C19\.lean:(\d+):", str(b_.get("detail", ""))):
+            ln = min(int(m.group(1)), len(lines))
+            for k in range(ln - 1, -1, -1):
+                t = re.match(r"\s*theorem\s+([\w.']+)", lines[k])
+                if t:
+                    names.add(t.group(1))
+                    break
+    return names
+
+
+def directed_histories(names, rng):
+    """When a Tie-A obligation about the hashed options / the recorded imports broke, search where it
+    points: every ordered pair inside every near-collision group, resp. every variant of every module
+    class at every level."""
+    out = []
+    if any(k in n for n in names for k in ("hashed", "option", "argsKey")):
+        base = [["edit", "target", 6], ["edit", "trans", 5], ["edit", "helpers", 2]]
+        for key in sorted(GROUPS):
+            idx = GROUPS[key]
+            for i in idx:
+                for j in idx:
+                    if i != j:
+                        out.append(base + [["changeOption", i], ["runWithCache"], ["changeOption", j], ["runWithCache"]])
+    if any(k in n for n in names for k in ("import_info", "blacklist", "pip", "follower", "bfs")):
+        for lvl in (0, 1, 2, 3):
+            for role in ROLES[1:]:
+                h = [["edit", "target", 6], ["edit", "pipmod", 2], ["edit", "stdmod", 2], ["edit", "direct", 6],
+                     ["changeOption", LEVEL_OPT[lvl]], ["runWithCache"]]
+                for v in range(len(FILES[role][1])):
+                    if role in BIG and v in BIG[role]:
+                        continue
+                    h += [["edit", role, v], ["runWithCache"]]
+                out.append(h)
+    return out
+
+
 def run(tier, seed, build):
     res = common.Result(PID)
-    res.rule = ("histories: op sequences over {editTarget, editDirect, editTransitive, changeOption, runWithCache, "
-                "forceRefresh} (content / option variants as parameters) executed through the real CLI, closed by a "
+    res.rule = ("histories: op sequences over {edit <any file: target, local / site-packages / stdlib-named module>, "
+                "changeOption <follow level, excluded imports / names, un-hashed options; short / long flags or "
+                "pyproject.toml>, runWithCache, forceRefresh} executed through the real CLI, closed by a "
                 "run; non-trivial = distinct history with >= 1 run with a cache file, or distinct corrupted cache "
-                "content; evaluations = CLI runs with a cache file + corrupted contents given to the gate")
+                "content, or distinct pair of option sets given to make_arguments_hash; evaluations = CLI runs with a "
+                "cache file + corrupted contents given to the gate + option sets hashed in-process")
     rng = random.Random(seed)
     from rattr._version import version
 
     hists = [close(h) for h in CORPUS]
+    hists += [close(h) for h in class_level_histories()] + [close(h) for h in option_pair_histories()]
+    names = broken_theorems(build)
+    if names:
+        res.extra["search_directed_by_broken_obligations"] = sorted(names)
+        hists += [close(h) for h in directed_histories(names, rng)]
     if tier == "quick":
-        hists += [random_history(rng, 6) for _ in range(50)] + [random_history(rng, 9) for _ in range(20)]
+        hists += [random_history(rng, 6) for _ in range(24)] + [random_history(rng, 9) for _ in range(8)]
+        hists += [random_history2(rng, 8) for _ in range(34)]
         hists += exhaustive_histories(2)
         res.extra["exhaustive_history_length"] = 2
     else:
         ex = exhaustive_histories(4)
         hists += ex
         hists += [random_history(rng, 8) for _ in range(300)]
+        hists += [random_history2(rng, 10) for _ in range(250)]
+        hists += [close(h) for h in directed_histories({"hashed", "import_info"}, rng)]
         res.extra["exhaustive_history_length"] = 4
         res.extra["exhaustive"] = True
     # dedupe
@@ -894,7 +1715,7 @@ def run(tier, seed, build):
 
     model = common.Model()
     payloads = [history_payload(h, recs, version) for h, recs in zip(hists, all_recs)]
-    mouts = model.batch([("cache_history", p) for p in payloads])
+    mouts = model.batch([("cache_deps_history", p) for p in payloads])
     plugins_seen = set()
 
     for h, recs, pay, mo in zip(hists, all_recs, payloads, mouts):
@@ -914,18 +1735,24 @@ def run(tier, seed, build):
             res.evaluations += 1
             io = impl_out(rec)
             res.count("run:" + io.split(":")[0])
-            res.count("opt:" + " ".join(OPTIONS[rec["state"]["opt"]]["args"]) if OPTIONS[rec["state"]["opt"]]["args"] else "opt:default")
+            o_ = OPTIONS[rec["state"]["opt"]]
+            res.count(f"run-at:follow={o_['follow']}")
+            res.count("run-with:" + ("+".join(k for k in ("F", "x", "other") if o_[k]) or "no-exclusions") + ":" + o_["via"])
+            for ch in rec.get("since_write") or ["nothing-changed"]:
+                res.count("since-write:" + re.sub(r":\d->\d$", "", ch))
             for sig, detail in judge_run(rec):
                 if sig == "__skip__":
                     skip = True
                     res.skipped_outside_fragment += 1
                     continue
-                res.violations.append({"signature": sig, "case": {**case, "step": i, "state": rec["state"]},
+                # the prefix of the history up to the offending run is the replay
+                res.violations.append({"signature": sig, "case": {**case, "ops": h[:i + 1], "step": i, "state": rec["state"]},
                                        "detail": detail,
                                        "impl": {"out": io, "exit": rec["run"]["exit"], "stderr_tail": rec["run"]["err_tail"],
                                                 "fresh_exit": rec["fresh"]["exit"]}})
         for op in h:
-            res.count("op:" + op[0])
+            op = normalise(op)
+            res.count("op:" + op[0] + (":" + CLASS[op[1]] if op[0] == "edit" else ""))
         res.sample({"case": case, "impl": [impl_out(r) if "run" in r else "-" for r in recs]}, cap=6)
         if skip:
             continue
@@ -941,7 +1768,16 @@ def run(tier, seed, build):
             real = real_disk_projection(rec["after"], d, version, argmap, plugins_seen)
             mdisk = ms["disk"]
             if isinstance(mdisk, dict):
-                mdisk = {**mdisk, "imports": sorted(mdisk["imports"])}
+                mdisk = {**mdisk, "imports": sorted(mdisk["imports"]), "args": model_optkey(mdisk["args"])}
+            # my own reading of the import follower / recorded origins vs the Lean model's
+            exp = expected_analysis(rec["state"], d)
+            mine = None if exp is None else {"analysed": exp[0], "recorded": exp[1]}
+            theirs = None if ms.get("bfs") != "done" else {"analysed": ms["analysed"], "recorded": sorted(ms["recorded"])}
+            if mine != theirs or not ms.get("builtinsUnreadable", True):
+                res.internal_errors.append({"what": "Lean import follower / recorded origins differ from the independent "
+                                                    "Python reading", "case": {**case, "step": i}, "python": mine,
+                                            "lean": theirs, "bfs": ms.get("bfs")})
+                break
             if ms.get("missingRow") or io != ms["out"] or real != mdisk:
                 res.disagreements.append({"case": {**case, "step": i}, "impl": {"out": io, "disk": real},
                                           "model": {"out": ms["out"], "disk": mdisk,
@@ -951,12 +1787,16 @@ def run(tier, seed, build):
     if len(plugins_seen) > 1:
         res.violations.append({"signature": "other:plugins-hash-not-constant", "case": sorted(plugins_seen)})
 
+    argkey_stream(res, tier, rng, model)
+    deps_stream(res, tier, rng, model)
     corruption_stream(res, tier, rng, model)
     hash_probe(res)
     res.extra["hash_block_size"] = BLOCK
 
     res.assumptions = [
-        "frame hypothesis (Lean: Frame): results and recorded origins depend only on target path, hashed options, version, plugins and the content of the files the analysis reads; every file read is the target or a recorded origin — tested end-to-end by the from-scratch oracle, not proved",
+        "frame hypothesis, reduced (Lean: FreshFrame): the results depend only on target path, hashed options, version, plugins and the content of the files the import follower reads — tested end-to-end by the from-scratch oracle, not proved; that every file read is the target or a recorded origin, and that the recorded origins depend only on the files read, are now theorems about the model of the import follower + make_cacheable_import_info (deps_covers, deps_recorded_frame), and that model is compared with every real cache document",
+        "re.fullmatch, isort's place_module and the module locator are trusted classifiers (parameters of the model); hash_string(str(HashableArguments)) is treated as injective, like md5",
+        "[interp] the excluded-import / excluded-name patterns are a SET of the strings as given: order and repetition are not a change, letter case and white space are",
         "md5 treated as injective; directory structure fixed (content edits only)",
         "[interp] 'a fresh run would give the cached results' includes 'a fresh run would succeed': a hit under --threshold/--strict where the from-scratch run is fatal is a violation",
         "[interp] 'corrupted or of the wrong shape' = not UTF-8 / not JSON / a JSON value whose fields do not have the declared JSON types; same-type value changes (undetectable without a checksum) are only required not to crash",
@@ -975,10 +1815,38 @@ def replay(path):
             if "run" in r:
                 print("op", r["op"], "->", impl_out(r), "exit", r["run"]["exit"], "| from-scratch exit", r["fresh"]["exit"],
                       "| oracle:", judge_run(r))
+            elif r["op"][0] == "changeOption":
+                o = OPTIONS[r["op"][1]]
+                print("op", r["op"], "= rattr", " ".join(map(repr, o["args"])),
+                      ("| pyproject.toml: " + o["toml"].replace("\n", " ; ")) if o["toml"] else "")
+            elif r["op"][0] in ("edit", *EDIT_OPS):
+                op = normalise(r["op"])
+                print("op", r["op"], "=", FILES[op[1]][0], "<-", repr(src_of(op[1], op[2])[-120:]))
             else:
                 print("op", r["op"])
-        mo = common.Model().batch([("cache_history", history_payload(case["ops"], recs, "?"))])[0]
+        mo = common.Model().batch([("cache_deps_history", history_payload(case["ops"], recs, "?"))])[0]
         print("model:", [s["out"] for s in mo.get("steps", [])] if isinstance(mo, dict) and "steps" in mo else mo)
+    elif case.get("stream") == "deps":
+        d = make_project("c19d_")
+        try:
+            ob = deps_in_process(d, [(case["state"], case["opt"])])[0]
+            print("options:", raw_opts(OPTIONS[case["opt"]]))
+            print("files opened by the import follower:", ob.get("opened"))
+            print("origins recorded by make_cacheable_import_info:", ob.get("recorded"))
+            print("read but not recorded:", [f for f in ob.get("opened", []) if f != "target.py" and f not in ob.get("recorded", [])])
+        finally:
+            shutil.rmtree(d, ignore_errors=True)
+    elif case.get("stream") == "argkey":
+        fam = [tuple(case["opts"])] + ([tuple(case["opts2"])] if case.get("opts2") else [])
+        hs = real_argument_hashes(fam)
+        pre = live_facts()["litPrefix"]
+        ks = common.Model().batch([("cache_argkey", {"prefix": pre, "opts": {"follow": f, "F": F or [], "x": x or []}})
+                                   for f, F, x in fam])
+        for c, h, k in zip(fam, hs, ks):
+            print("options (follow, excluded imports, excluded names):", c, "-> arguments hash", h, "| model key", k)
+        if len(fam) == 2:
+            print("same hash:", hs[0] == hs[1], "| same option sets:", canon_opts(fam[0]) == canon_opts(fam[1]),
+                  "| difference:", option_difference(fam[0], fam[1]))
     elif case.get("stream") == "hash-probe":
         d = tempfile.mkdtemp(prefix="c19p_", dir=TMPROOT)
         try:
